@@ -124,9 +124,11 @@ def snapBatchLoop (snap : List KV) : List Bytes → List KV → List KV
 
 def snapBatchGet (snap : List KV) (keys : List Bytes) : List KV := snapBatchLoop snap keys []
 
+/-- `for key, val := range storageValues { bufferValues[key] = val }` (the keys of a Go map are distinct, so
+the order of the assignments does not matter) -/
 def mergeInto : List KV → List KV → List KV
   | [], m => m
-  | (k, v) :: r, m => mergeInto r (mapSet k v m)
+  | (k, v) :: r, m => mapSet k v (mergeInto r m)
 
 /-- `BufferBatchGetter.BatchGet` as the property demands it (and as the repaired code does it): the key list
 passed to the snapshot is computed against the COMPLETE buffer answer, the tombstones leave the result
